@@ -331,6 +331,15 @@ impl UnsettledMessage {
     ) -> Result<(), Option<DeliveryState>> {
         self.sender.send(state)
     }
+
+    /// Wakes whoever awaits the outcome of this delivery: no outcome can arrive on the
+    /// session it was sent on any more. The delivery itself stays unsettled (it can
+    /// still be resumed on another session); only the waiting end is let go, and finds
+    /// the session's stop reason.
+    pub fn abandon_waiter(&mut self) {
+        let (sender, _) = oneshot::channel();
+        drop(std::mem::replace(&mut self.sender, sender));
+    }
 }
 
 impl AsDeliveryState for UnsettledMessage {
